@@ -1,6 +1,7 @@
 (* C18 — index-remapping and strip utilities agree with their mathematical definition.
    Only statements, each closed by [exact] of a lemma proved elsewhere, and their assumptions. *)
 From NiflyVerif Require Import Res UtilModel UtilSpec CompactProofs EraseProofs FillProofs StripProofs.
+From NiflyVerif Require Import InsertSpec RankProofs ExpandProofs InsertProofs.
 Local Open Scope N_scope.
 
 (* EraseVectorIndices: for a strictly ascending index list and a vector shorter than 2^w
@@ -42,6 +43,86 @@ Theorem C18_strips_nondegenerate : forall s i a b c,
 Proof. exact strip_windows_nondegenerate. Qed.
 Print Assumptions C18_strips_nondegenerate.
 
+(* InsertVectorIndices. [insert_spec d v idx] (Util/InsertSpec.v) is the vector of |v| + |idx|
+   elements whose unlisted positions hold v in order (position p holds v[rank idx p]); a listed
+   position keeps what the resized vector held there (the old v[p], or the fill value d): the
+   "hole" a copying move leaves, which the property does not constrain.
+   For a strictly ascending index list whose entries are all positions of the result, and a
+   result length below 2^w (w = value bits of the index type), the backwards in-place loop returns
+   exactly that vector: no access outside the vector, no counter wrap that matters. *)
+Theorem C18_insert_correct : forall (A : Type) (w : N) (d : A) (v : list A) (idx : list N),
+  sorted_lt idx -> Forall (fun i => i < vlen v + vlen idx) idx -> vlen v + vlen idx < 2 ^ w ->
+  insert_model w d v idx = Ok (insert_spec d v idx).
+Proof. exact @insert_correct. Qed.
+Print Assumptions C18_insert_correct.
+
+(* the guard: an empty list, or a last index that is not a position of the result, leaves v as it
+   is, for ANY list (unsorted, duplicated) and any width *)
+Theorem C18_insert_out_of_range : forall (A : Type) (w : N) (d : A) (v : list A) (idx : list N),
+  idx = [] \/ vlen v + vlen idx <= last idx 0 -> insert_model w d v idx = Ok v.
+Proof. exact @insert_out_of_range. Qed.
+Print Assumptions C18_insert_out_of_range.
+
+Theorem C18_insert_spec_length : forall (A : Type) (d : A) (v : list A) (idx : list N),
+  length (insert_spec d v idx) = (length v + length idx)%nat.
+Proof. exact @insert_spec_length. Qed.
+Print Assumptions C18_insert_spec_length.
+
+(* the naive definitions are inverse to each other: erasing the inserted positions gives v back *)
+Theorem C18_erase_insert_spec : forall (A : Type) (d : A) (v : list A) (idx : list N),
+  NoDup idx -> Forall (fun i => i < vlen v + vlen idx) idx ->
+  erase_spec (insert_spec d v idx) idx = v.
+Proof. exact @erase_insert_spec. Qed.
+Print Assumptions C18_erase_insert_spec.
+
+(* ... and so are the loops: insert, then erase the same positions, is the identity *)
+Theorem C18_insert_then_erase : forall (A : Type) (w : N) (d : A) (v : list A) (idx : list N),
+  sorted_lt idx -> Forall (fun i => i < vlen v + vlen idx) idx -> vlen v + vlen idx < 2 ^ w ->
+  bind (insert_model w d v idx) (fun r => erase_model w d r idx) = Ok v.
+Proof. exact @insert_then_erase. Qed.
+Print Assumptions C18_insert_then_erase.
+
+(* "erase then re-insert restores positions": the two loops one after the other give a vector of
+   the old length in which every surviving element is back at its old position *)
+Theorem C18_erase_then_insert_restores : forall (A : Type) (w : N) (d : A) (u : list A) (idx : list N),
+  sorted_lt idx -> Forall (fun i => i < vlen u) idx -> vlen u < 2 ^ w ->
+  exists r, bind (erase_model w d u idx) (fun v => insert_model w d v idx) = Ok r /\
+            length r = length u /\
+            forall p, memN p idx = false -> nth_error r (N.to_nat p) = nth_error u (N.to_nat p).
+Proof. exact @erase_then_insert. Qed.
+Print Assumptions C18_erase_then_insert_restores.
+
+(* GenerateIndexExpandMap: for a strictly ascending index list and mapSize + |indices| below the
+   range of the counter type (so that neither counter wraps; a signed counter would otherwise
+   overflow) and below 2^31 (the entries are stored as int), the loop with its inner skip loop
+   returns the naive expand map and stays inside the map and the index list. *)
+Theorem C18_expand_correct : forall (w2 : N) (sg2 : bool) (idx : list N) (n : N),
+  sorted_lt idx -> n + vlen idx < 2 ^ w2 -> n + vlen idx < 2 ^ 31 ->
+  expand_model w2 sg2 idx n = Ok (expand_spec idx n).
+Proof. exact expand_correct. Qed.
+Print Assumptions C18_expand_correct.
+
+(* the naive expand map, said without fuel: entry j is THE position that is not listed and has
+   exactly j unlisted positions below it ([free_rank]; unique by C18_free_rank_unique) *)
+Theorem C18_expand_spec_char : forall (idx : list N) (n : N) (j : nat),
+  NoDup idx -> (j < N.to_nat n)%nat ->
+  exists p, nth_error (expand_spec idx n) j = Some (Z.of_N p) /\ free_rank idx p (N.of_nat j)
+            /\ p <= N.of_nat j + vlen idx.
+Proof. exact expand_spec_char. Qed.
+Print Assumptions C18_expand_spec_char.
+
+Theorem C18_free_rank_unique : forall (idx : list N) (p q j : N),
+  free_rank idx p j -> free_rank idx q j -> p = q.
+Proof. exact free_rank_unique. Qed.
+Print Assumptions C18_free_rank_unique.
+
+(* expand is the inverse of collapse on the survivors: collapse[expand[j]] = j *)
+Theorem C18_collapse_expand : forall (idx : list N) (n m : N) (j : nat) (p : N),
+  NoDup idx -> nth_error (expand_spec idx n) j = Some (Z.of_N p) -> p < m ->
+  nth_error (collapse_spec idx m) (N.to_nat p) = Some (Z.of_nat j).
+Proof. exact collapse_expand. Qed.
+Print Assumptions C18_collapse_expand.
+
 (* Non-vacuity: concrete inputs meeting the hypotheses, with non-trivial results. *)
 Example C18_erase_example :
   sorted_lt [1; 3] /\ vlen [10; 11; 12; 13; 14] < 2 ^ 16 /\
@@ -55,3 +136,26 @@ Proof. reflexivity. Qed.
 Example C18_strips_example :
   strips_model [[0; 1; 2; 3; 3; 4]] = Ok [(0, 1, 2); (1, 3, 2)].
 Proof. reflexivity. Qed.
+
+(* insert: 3 elements, holes at positions 1 and 3 (position 1 keeps the stale 11, position 3 lies
+   beyond the old end and holds the fill value 0); erasing the holes again gives the input *)
+Example C18_insert_example :
+  sorted_lt [1; 3] /\ Forall (fun i => i < vlen [10; 11; 12] + vlen [1; 3]) [1; 3] /\
+  vlen [10; 11; 12] + vlen [1; 3] < 2 ^ 16 /\
+  insert_model 16 0 [10; 11; 12] [1; 3] = Ok [10; 11; 11; 0; 12] /\
+  insert_spec 0 [10; 11; 12] [1; 3] = [10; 11; 11; 0; 12] /\
+  erase_spec [10; 11; 11; 0; 12] [1; 3] = [10; 11; 12].
+Proof. repeat split; try (repeat constructor; fail); reflexivity. Qed.
+
+(* the guard: last index 7 is not a position of a 5-element result *)
+Example C18_insert_guard_example :
+  insert_model 16 0 [10; 11; 12] [1; 7] = Ok [10; 11; 12].
+Proof. reflexivity. Qed.
+
+(* expand: positions 1 and 3 deleted; the three new positions come from 0, 2, 4, and the collapse
+   map of the erase example sends these back to 0, 1, 2 *)
+Example C18_expand_example :
+  sorted_lt [1; 3] /\ 3 + vlen [1; 3] < 2 ^ 16 /\ 3 + vlen [1; 3] < 2 ^ 31 /\
+  expand_model 16 false [1; 3] 3 = Ok [0; 2; 4]%Z /\
+  free_rank [1; 3] 4 2.
+Proof. repeat split; try (repeat constructor; fail); reflexivity. Qed.
